@@ -144,6 +144,11 @@ func c17Gen(c *core.Ctx) {
 		{"a& echo y", map[string]string{"a": "true &"}, "true && echo y"},
 		{"a\nfoo\nE\n", map[string]string{"a": "cat <<E\n"}, "cat <<E\n\nfoo\nE\n"},
 		{"a\\\nb there", map[string]string{"ab": "echo hi"}, "echo hi there"},
+		// a here-document whose body comes from the alias value, wherever the alias word stands
+		{" a", map[string]string{"a": "cat <<E\nbody\nE\n"}, " cat <<E\nbody\nE\n"},
+		{": ; a", map[string]string{"a": "cat <<E\nbody\nE\n"}, ": ; cat <<E\nbody\nE\n"},
+		{"if x; then\n  a\nfi", map[string]string{"a": "cat <<E\nbody\nE\n"}, "if x; then\n  cat <<E\nbody\nE\n\nfi"},
+		{"a", map[string]string{"a": "cat <<E\nbody\nE\n"}, "cat <<E\nbody\nE\n"},
 		// command position inside a command substitution
 		{"echo $(foo)", map[string]string{"foo": "echo hi"}, "echo $(echo hi)"},
 		{"echo `foo`", map[string]string{"foo": "echo hi"}, "echo `echo hi`"},
